@@ -99,21 +99,20 @@ CHECKS = {
    technique="Coq proof over node state machine + simulator correspondence (real handlers, real store) per delivery",
    design="6/C09"),
  'C10': dict(
-   text="partial. Proved: locator heights exactly head-k / head-k^2, descending; get-blocks server replies with consecutive active-"
-        "chain ids whose parent is genesis or an announced id on the active chain, progress on a match below the head, empty reply "
-        "at/above the head; at-most-once relay (C09/C13 theorems). Not proved: convergence under every interleaving (fairness, "
+XX
         "timers) -- explored on 2-3 real nodes in simnet with forked histories beyond the dense locator range, multiple inventory "
         "batches, all small topologies, seeded schedulers, then a transaction broadcast.",
    note="Liveness/convergence is exploration, not proof; real timers, threads, TCP back-pressure are outside the model.",
    technique="Coq proof of locator/server/relay lemmas + seeded-schedule exploration of real nodes in a simulator",
    design="6/C10"),
  'C12': dict(
-   text="partial. Proved: adoption of a found block over the node model (served state, store, exactly one broadcast; head when it "
-        "extends the head; invalid found block is a no-op) and timestamp > parent. Tied, not proved: every assembled block with id "
-        "below target passes the node's own full validation and pays exactly subsidy + fees (real MinerWatcher handlers + real "
-        "validators + extracted construct_block_for_mining on pools with 0-3 transactions and clocks before/at/after the head).",
-   note="The general assembly-validity theorem is not proved (stated in DESIGN.md); known finding: clock more than 29 s behind the "
-        "head's timestamp.",
+   text="Theorems: every candidate assembled from the head and an admissible pool passes the node's own full validation once its "
+        "id is below target (C12_assembly_valid: all hash/signature functions, parameters, states, pools, keys, nonces, clocks "
+        "under the stated side conditions), the reward pays exactly subsidy + fees to the miner's key, timestamp > parent; "
+        "adoption of a found block over the node model (served state, store, exactly one broadcast; head when it extends the head).",
+   note="Side conditions of the assembly theorem are conditions on the caller (block fits, timestamp <= clock + 30): mining.py's "
+        "max(now, parent+1) violates the last one when the clock is > 29 s behind the head (known finding). Tie: real MinerWatcher "
+        "handlers in-process, candidate compared byte for byte with the extracted construct_block_for_mining.",
    technique="Coq proof (adoption) + differential check of block assembly against extracted model and the node's own validation",
    design="6/C12"),
  'C13': dict(
